@@ -392,3 +392,61 @@ From PyStoG Require Import RebinM.
 Definition chk_rebin (c : rawcase) : float :=
   let '(xo, yo) := rebin (lnth (fl c) 0) (lnth (fl c) 1) (fnth (sc c) 0) (fnth (sc c) 1) (fnth (sc c) 2) in
   fmax (devs dev_exact xo (lnth (out c) 0)) (devs dev_pt yo (lnth (out c) 1)).
+
+(* ================= configuration (C19) ================= *)
+From PyStoG Require Import ConfigM.
+
+(* zs = [has_fn; fn (0 g, 1 G, 2 GK, 3 bad); has_rmin; has_rmax; has_rdelta; has_rpoints; has_rho;
+         lowq (0 absent, 1 false, 2 true, 3 not a bool); lorch (same); ff (0 absent, 1 {} , 2 {Cutoff: null}, 3 {Cutoff: c});
+         has_bcoh; has_btot; has_merge; has_Y; has_Yscale; has_Yoffset; has_F; has_FY; has_Fscale; has_Foffset; has_qmin; has_qmax;
+         mode (0: StoG(json kwargs), 1: CLI flag form -> args)]
+   sc = [rmin; rmax; rdelta; rpoints; rho; cutoff; bcoh; btot; Yscale; Yoffset; Fscale; Foffset; qmin; qmax]
+   out = [[status; fn; rmin; rmax; rdelta; rho; bcoh; btot; lowq; lorch; has_cutoff; cutoff; has_qmin; qmin; has_qmax; qmax;
+           mYs; mYo; has_F] ; dr ; plan codes]
+   status 0 ok, 1 ValueError, 2 TypeError, 3 KeyError, 9 other *)
+Definition flagv_of (z : Z) : option flagv :=
+  match z with 0%Z => None | 1%Z => Some (FlagBool false) | 2%Z => Some (FlagBool true) | _ => Some FlagOther end.
+Definition fnv_of (z : Z) : fnv := match z with 0%Z => FnName gg | 1%Z => FnName gG | 2%Z => FnName gGK | _ => FnBad end.
+Definition b2f (b : bool) : float := if b then 1%float else 0%float.
+Definition fn_code (g : gfun) : float := match g with gg => 0%float | gG => 1%float | gGK => 2%float end.
+Definition err_code (e : err) : float := match e with ValueError => 1%float | TypeError => 2%float | KeyError => 3%float end.
+Definition act_code (a : action) : float :=
+  match a with AReadAll n => (10 + of_ZF (Z.of_nat n))%float | AMerge => 1%float | AWriteSQ => 2%float | ATransform => 3%float
+  | AWriteGR => 4%float | AFilter => 5%float | ALorch => 6%float | AKeenFQ => 7%float | AKeenGR => 8%float end.
+
+Definition chk_config (c : rawcase) : float :=
+  let z := zs c in let s := sc c in
+  let mo := if zb (znth z 12) then Some
+      {| m_Y := if zb (znth z 13) then Some {| o_scale := fopt (znth z 14) (fnth s 8); o_offset := fopt (znth z 15) (fnth s 9) |} else None;
+         m_F := if zb (znth z 16) then Some (if zb (znth z 17) then Some {| o_scale := fopt (znth z 18) (fnth s 10); o_offset := fopt (znth z 19) (fnth s 11) |} else None) else None |}
+    else None in
+  let j0 := {| j_fn := if zb (znth z 0) then Some (fnv_of (znth z 1)) else None;
+              j_rmin := fopt (znth z 2) (fnth s 0); j_rmax := fopt (znth z 3) (fnth s 1);
+              j_rdelta := fopt (znth z 4) (fnth s 2); j_rpoints := fopt (znth z 5) (fnth s 3);
+              j_rho := fopt (znth z 6) (fnth s 4);
+              j_lowq := flagv_of (znth z 7); j_lorch := flagv_of (znth z 8);
+              j_ff := match znth z 9 with 0%Z => None | 1%Z => Some None | 2%Z => Some (Some None) | _ => Some (Some (Some (fnth s 5))) end;
+              j_bcoh := fopt (znth z 10) (fnth s 6); j_btot := fopt (znth z 11) (fnth s 7);
+              j_merge := mo; j_qmin := fopt (znth z 20) (fnth s 12); j_qmax := fopt (znth z 21) (fnth s 13) |} in
+  let j := if zb (znth z 22) then
+      parse_cli_args {| a_density := fnth s 4; a_fn := fnv_of (znth z 1); a_rmax := fnth s 1; a_rpoints := fnth s 3;
+                        a_rdelta := fopt (znth z 4) (fnth s 2); a_cutoff := match znth z 9 with 3%Z => Some (fnth s 5) | _ => None end;
+                        a_lorch := Z.eqb (znth z 8) 2; a_bcoh := fnth s 6; a_btot := fnth s 7;
+                        a_merge_offset := fnth s 9; a_merge_scale := fnth s 8; a_lowq := Z.eqb (znth z 7) 2 |}
+    else j0 in
+  let o := lnth (out c) 0 in
+  match kwargs2attr j with
+  | Err e => dev_exact (err_code e) (fnth o 0)
+  | Ok st =>
+      let my := st_merge st in
+      let want := [0%float; fn_code (st_fn st); st_rmin st; st_rmax st; st_rdelta st; st_rho st; st_bcoh st; st_btot st;
+                   b2f (st_lowq st); b2f (st_lorch st);
+                   b2f (match st_cutoff st with Some _ => true | None => false end); opt_or (st_cutoff st) 0%float;
+                   b2f (match st_qmin st with Some _ => true | None => false end); opt_or (st_qmin st) 0%float;
+                   b2f (match st_qmax st with Some _ => true | None => false end); opt_or (st_qmax st) 0%float;
+                   merged_yscale my; merged_yoffset my; b2f (match m_F my with Some _ => true | None => false end)] in
+      let plan := match cli_plan j with Ok p => map act_code p | Err e => [err_code e] end in
+      fmax (devs dev_exact want o)
+           (fmax (devs dev_exact (rgrid st) (lnth (out c) 1))
+                 (match lnth (out c) 2 with [] => 0%float | p => devs dev_exact plan p end))
+  end.
